@@ -476,6 +476,13 @@ fn observe_ref<E: Elem>(s: DynRef<'_, E>, case: &Case) -> Obs {
                 }
             }
         }
+        "probe" => {
+            for rc in case.args.chunks(2) {
+                let g = s.get(Position::new(rc[0], rc[1])).map(|x| (x as *const E, x.id()));
+                let g = g.map(|(p, v)| (addr.off(p, &mut obs), v));
+                obs.grid.push(g);
+            }
+        }
         "iter" => {
             let refs: Vec<&E> = s.iter().collect();
             for x in refs {
@@ -526,6 +533,13 @@ fn observe_mut<E: Elem>(mut s: DynMut<'_, E>, case: &Case) -> Obs {
                 }
             }
         }
+        "probemut" => {
+            for rc in case.args.chunks(2) {
+                let g = s.get_mut(Position::new(rc[0], rc[1])).map(|x| (x as *const E, x.id()));
+                let g = g.map(|(p, v)| (addr.off(p, &mut obs), v));
+                obs.grid.push(g);
+            }
+        }
         "gridmut" => {
             for r in 0..obs.height + 2 {
                 for c in 0..obs.width + 2 {
@@ -533,6 +547,13 @@ fn observe_mut<E: Elem>(mut s: DynMut<'_, E>, case: &Case) -> Obs {
                     let g = g.map(|(p, v)| (addr.off(p, &mut obs), v));
                     obs.grid.push(g);
                 }
+            }
+        }
+        "probe" => {
+            for rc in case.args.chunks(2) {
+                let g = s.get(Position::new(rc[0], rc[1])).map(|x| (x as *const E, x.id()));
+                let g = g.map(|(p, v)| (addr.off(p, &mut obs), v));
+                obs.grid.push(g);
             }
         }
         "iter" => {
@@ -620,7 +641,7 @@ fn observe_mut<E: Elem>(mut s: DynMut<'_, E>, case: &Case) -> Obs {
 }
 
 fn is_mut_acc(acc: &str) -> bool {
-    matches!(acc, "gridmut" | "itermut" | "nthmut" | "fill" | "clear" | "fillwith" | "insert" | "insertwrap" | "inserthuge" | "set")
+    matches!(acc, "gridmut" | "probemut" | "itermut" | "nthmut" | "fill" | "clear" | "fillwith" | "insert" | "insertwrap" | "inserthuge" | "set")
 }
 
 /// run one case on the implementation with element type `E`; `Err` = panic whose effect on the parent
@@ -702,7 +723,7 @@ fn request(case: &Case) -> String {
     };
     let head = format!("c07 {op} {} {} {} {}", case.h, case.w, case.extra, case.chain_token());
     match case.acc.as_str() {
-        "nth" | "nthmut" => format!("{head} {}", join(&case.args)),
+        "nth" | "nthmut" | "probe" | "probemut" => format!("{head} {}", join(&case.args)),
         "fill" => format!("{head} {}", case.args[0]),
         "insert" | "insertwrap" | "inserthuge" => format!("{head} {} {} {}", case.args[0], case.args[1], join(&case.items)),
         "set" => format!("{head} {} {} 4242", case.args[0], case.args[1]),
@@ -726,7 +747,7 @@ fn answer(case: &Case, obs: &Result<Obs, ()>) -> String {
             join(&obs.grid.iter().map(show_cell).collect::<Vec<_>>())
         ),
         "gridmut" if obs.height * obs.width == 0 => "empty".to_string(),
-        "gridmut" => join(&obs.grid.iter().map(show_cell).collect::<Vec<_>>()),
+        "gridmut" | "probe" | "probemut" => join(&obs.grid.iter().map(show_cell).collect::<Vec<_>>()),
         "iter" | "nth" => join(&obs.items.iter().map(show_cell).collect::<Vec<_>>()),
         "itermut" | "nthmut" => join(&obs.items.iter().map(show_off).collect::<Vec<_>>()),
         "fill" | "clear" | "insert" | "insertwrap" | "inserthuge" => join(&obs.canvas),
@@ -793,6 +814,15 @@ fn judge(case: &Case, win: &Mat, obs: &Result<Obs, ()>) -> Option<(String, Value
             }
             if obs.grid != exp {
                 return bad("get/get_mut: cells reached through the view differ from the matrix window (or a position outside is not absent)",
+                    json!(exp.iter().map(show_cell).collect::<Vec<_>>()), json!(obs.grid.iter().map(show_cell).collect::<Vec<_>>()));
+            }
+        }
+        "probe" | "probemut" => {
+            // any position, however far away: the window's cell or absent — never a panic
+            let exp: Vec<Option<(usize, T)>> =
+                case.args.chunks(2).map(|rc| win.get(rc[0]).and_then(|row| row.get(rc[1])).map(|&id| (id, init[id]))).collect();
+            if obs.grid != exp {
+                return bad("get/get_mut at a far position: not the window's cell / not absent",
                     json!(exp.iter().map(show_cell).collect::<Vec<_>>()), json!(obs.grid.iter().map(show_cell).collect::<Vec<_>>()));
             }
         }
@@ -1082,6 +1112,11 @@ fn zst_check(case: &Case, win: &Mat) -> Option<(String, Value, Value)> {
                     }
                 }
             }
+            for (r, c) in [(usize::MAX, 0), (0, usize::MAX), (usize::MAX, usize::MAX), (1usize << 63, 1), ((usize::MAX / w.max(1)).saturating_add(1), 0)] {
+                if s.get(Position::new(r, c)).is_some() || s.get_mut(Position::new(r, c)).is_some() {
+                    bad("get/get_mut at a far position is not absent", json!("None"), json!([r, c]));
+                }
+            }
             if s.iter().count() != cells || s.iter_mut().count() != cells {
                 bad("iteration does not yield height x width items", json!(cells), json!([s.iter().count(), s.iter_mut().count()]));
             }
@@ -1128,6 +1163,27 @@ fn zst_check(case: &Case, win: &Mat) -> Option<(String, Value, Value)> {
         verdict = Some(("zero-sized cells: operation panics".to_string(), json!("no panic"), json!("panic")));
     }
     verdict
+}
+
+/// a coordinate far outside of every window: extremes of usize and values whose product with a stride of
+/// the parent (`1`, `w`, `h`, the window's extents) is close to, or wraps around, 2^64 — so that an offset
+/// computed before the bounds test overflows or wraps to an in-range offset
+fn far_coord(rng: &mut Rng, dims: &[usize]) -> usize {
+    const MAX: usize = usize::MAX;
+    let s = (*rng.pick(dims)).max(1);
+    let k = rng.below(3) as usize;
+    match rng.below(9) {
+        0 => MAX - k,
+        1 => (1usize << 63) + k,
+        2 => (1usize << 63) - 1 - k,
+        3 => (MAX / s).saturating_add(1 + k),
+        4 => MAX / s - k,
+        // s * v = 2^64 + small: wraps to a small (in-range) offset
+        5 => ((1u128 << 64).div_ceil(s as u128).min(MAX as u128) as usize).saturating_add(k),
+        6 => 1usize << (32 + rng.below(31)),
+        7 => MAX / 2 / s + 1 + k,
+        _ => (MAX - k) / s.max(2),
+    }
 }
 
 struct Ctx {
@@ -1205,7 +1261,7 @@ impl Ctx {
         self.out.hist(if extra > 0 { "root:from_vec" } else { "root:new_with" });
         const MAX: usize = usize::MAX;
         let accs = [
-            "grid", "grid+", "gridmut", "iter", "iter+", "itermut", "nth", "nth+", "nthmut", "nthmut!", "nth!", "fill", "clear", "fillwith",
+            "grid", "grid+", "gridmut", "probe", "probe+", "probemut", "iter", "iter+", "itermut", "nth", "nth+", "nthmut", "nthmut!", "nth!", "fill", "clear", "fillwith",
             "insert", "insert!", "inserthuge", "insertwrap", "map", "map+", "toowned", "set", "set!",
         ];
         for acc in accs.iter() {
@@ -1293,6 +1349,31 @@ impl Ctx {
                     case.args = vec![r, c];
                     let n = rng.below(cells as u64 + 4) as usize;
                     case.items = (0..n).map(|j| 9000 + j as T).collect();
+                }
+                "probe" | "probemut" => {
+                    // far positions: (far, in-range), (in-range, far), (far, far), plus one ordinary neighbour
+                    let dims = [1, h, w, hs, ws, h * w];
+                    for _ in 0..6 {
+                        let near_r = rng.below(hs as u64 + 2) as usize;
+                        let near_c = rng.below(ws as u64 + 2) as usize;
+                        let (r, c) = match rng.below(7) {
+                            0 | 1 => (far_coord(rng, &dims), near_c),
+                            2 | 3 => (near_r, far_coord(rng, &dims)),
+                            4 | 5 => (far_coord(rng, &dims), far_coord(rng, &dims)),
+                            _ => (near_r, near_c),
+                        };
+                        case.args.extend([r, c]);
+                    }
+                }
+                "set" if (flag == '!' || cells == 0) && rng.chance(1, 3) => {
+                    // far outside: a panic is demanded, not an overflow in the offset computation that
+                    // wraps to a cell of the parent (release) — the parent must stay unchanged
+                    let dims = [1, h, w, hs, ws, h * w];
+                    case.args = match rng.below(3) {
+                        0 => vec![far_coord(rng, &dims), rng.below(ws as u64 + 1) as usize],
+                        1 => vec![rng.below(hs as u64 + 1) as usize, far_coord(rng, &dims)],
+                        _ => vec![far_coord(rng, &dims), far_coord(rng, &dims)],
+                    };
                 }
                 "set" if flag == '!' || cells == 0 => {
                     // outside of the window; for proper windows mostly still inside the parent
